@@ -154,6 +154,7 @@ var c20Odds = []c20Odd{
 	{Name: "kind-alias-vs-table", Shop: "    !table Swap:\n        id <: int [~pk]\n", Alt: "    !alias Swap:\n        string\n"},
 	{Name: "kind-union-vs-table", Shop: "    !table Swap:\n        id <: int [~pk]\n", Alt: "    !union Swap:\n        int\n        string\n"},
 	{Name: "kind-table-referenced-vs-type", Shop: "    !table Swap:\n        id <: int [~pk]\n    !table User:\n        uid <: int [~pk]\n        s <: Swap.id\n", Alt: "    !type Swap:\n        id <: int\n    !table User:\n        uid <: int [~pk]\n"},
+	{Name: "blackbox-entry-without-comment", Proj: "    odd [blackboxes=[[\"Store <- Load\"]]]:\n        Shop <- Refresh\n", Shop: "    Odd [blackboxes=[[\"Store <- Load\"]]]:\n        Store <- Load\n"},
 	{Name: "return-without-spaces", Shop: "    /odd:\n        GET:\n            return ok<:Item\n        POST:\n            return 200<:sequence of Item\n    Odd:\n        return ok<:string\n"},
 	{Name: "table-inplace-tuple", Shop: "    !table Odd:\n        id <: int [~pk]\n        inner <:\n            g <: int\n            h <: string\n"},
 	{Name: "type-inplace-tuple-nested", Shop: "    !type Odd:\n        f <:\n            g <: int\n            h <:\n                i <: Item\n"},
@@ -192,6 +193,12 @@ var c20Cmds = [][]string{
 	{"sd", "-s", "Shop <- Odd", "-s", "Shop <- Refresh", "-o", "sd7.puml", "MODEL"},
 	{"sd", "-s", "Shop <- Refresh", "-s", "Store <- Load", "-s", "Shop <- Helper", "-o", "sd8.puml", "MODEL"},
 	{"sd", "-a", "Shop", "-o", "sda-%(epname).puml", "MODEL"},
+	{"diagram", "-s", "-a", "Shop", "-e", "Refresh", "-o", "m1.svg", "MODEL"},
+	{"diagram", "-s", "-a", "Shop", "-e", "Odd", "-o", "m2.svg", "MODEL"},
+	{"diagram", "-s", "-a", "Shop", "-e", "GET /odd", "-o", "m3.svg", "MODEL"},
+	{"diagram", "-i", "-o", "m4.svg", "MODEL"},
+	{"diagram", "-i", "-a", "Shop", "-o", "m5.svg", "MODEL"},
+	{"diagram", "-d", "-o", "m6.svg", "MODEL"},
 	{"sd", "-a", "Proj", "-o", "sdp-%(epname).puml", "MODEL"},
 	{"ints", "-j", "Proj", "-o", "i-%(epname).puml", "MODEL"},
 	{"ints", "-j", "Proj", "-c", "-o", "ic-%(epname).puml", "MODEL"},
@@ -224,6 +231,8 @@ type c20Case struct {
 	Cmd  []string `json:"cmd"`
 	Doc  string   `json:"doc,omitempty"` // import case: document text
 	Name string   `json:"name,omitempty"`
+	// Files: a multi-file model (root m.sysl) instead of the oddity model
+	Files map[string]string `json:"files,omitempty"`
 }
 
 func (c20) Bounds(tier string) map[string]interface{} {
@@ -262,6 +271,25 @@ func (c20) Cases(tier string, emit func(string, interface{})) {
 		emit("export", c20Case{Odds: []int{0}, Cmd: c20SlowCmds[0]})
 		emit("export", c20Case{Odds: []int{0}, Cmd: c20SlowCmds[1]})
 	}
+	// multi-file models (duplicate imports, diamonds, a file imported again before further files are claimed)
+	// with and without --no-different-version-check
+	closures := map[string]map[string]string{
+		"diamond":       {"m.sysl": "import b\nimport c\nA:\n    ...\n", "b.sysl": "import d\nB:\n    ...\n", "c.sysl": "import d\nC:\n    ...\n", "d.sysl": "D:\n    ...\n"},
+		"dup-then-more": {"m.sysl": "import b\nimport c\nA:\n    ...\n", "b.sysl": "B:\n    ...\n", "c.sysl": "import b\nimport d\nC:\n    ...\n", "d.sysl": "import e\nD:\n    ...\n", "e.sysl": "E:\n    ...\n"},
+		"twice":         {"m.sysl": "import b\nimport b\nimport c\nA:\n    ...\n", "b.sysl": "import c\nB:\n    ...\n", "c.sysl": "import d\nC:\n    ...\n", "d.sysl": "D:\n    ...\n"},
+	}
+	for _, name := range []string{"diamond", "dup-then-more", "twice"} {
+		for _, flag := range []string{"", "--no-different-version-check"} {
+			for _, cmd := range [][]string{{"pb", "--mode", "textpb", "-o", "o.textpb"}, {"validate"}} {
+				full := append([]string{}, cmd...)
+				if flag != "" {
+					full = append(full, flag)
+				}
+				full = append(full, "MODEL")
+				emit("closure", c20Case{Cmd: full, Files: closures[name], Name: name})
+			}
+		}
+	}
 	// import of generated foreign documents through the CLI
 	docs := oaDocs("quick")
 	for _, i := range []int{0, 5, len(docs)/2 - 3, len(docs)/2 - 1} {
@@ -286,7 +314,11 @@ func (c20) Run(c core.Case) core.Outcome {
 	}
 	defer os.RemoveAll(dir)
 	label := cs.Name
-	if cs.Doc != "" {
+	if cs.Files != nil {
+		for n, t := range cs.Files {
+			_ = os.WriteFile(filepath.Join(dir, n), []byte(t), 0o644)
+		}
+	} else if cs.Doc != "" {
 		_ = os.WriteFile(filepath.Join(dir, cs.Name), []byte(cs.Doc), 0o644)
 	} else {
 		var odds []c20Odd
@@ -343,6 +375,10 @@ func (c20) Run(c core.Case) core.Outcome {
 		o.Violation = fmt.Sprintf("model %s: '%s' did not terminate within 60 s", label, cmdline)
 		o.Sig = "timeout|" + cs.Cmd[0]
 		o.Detail = d
+	case strings.Contains(se+so, "\"google-chrome\": executable file not found"):
+		// 'sysl diagram' renders through headless Chrome, which this sandbox does not have: the sysl side of
+		// the command (the Mermaid text generator) ran to completion; the rendering step is outside the check
+		o.Class = "needs-chrome"
 	case core.CrashText(se) || core.CrashText(so) || code < 0 || code > 2:
 		msg, frame := core.CrashSig(se + so)
 		o.Class = "crash"
